@@ -51,17 +51,40 @@ def optJ : Option Json → Json
   | some j => j
   | none => .null
 
-/-- `["in" | "out", name, data]` -/
+/-- the state events of the log in the short form `["in" | "out", name, data]` -/
+def evShort : Ev → Option Json
+  | .entered _ n d => some (.arr [.str (S "in"), .str n, d])
+  | .exited _ n d => some (.arr [.str (S "out"), .str n, d])
+  | _ => none
+
+def optNat : Option Nat → Json
+  | some n => .num n
+  | none => .null
+
+/-- a history event as `[type, name-or-null, detail-or-null]` (the detail fields that are compared) -/
 def evJson : Ev → Json
-  | .entered n d => .arr [.str (S "in"), .str n, d]
-  | .exited n d => .arr [.str (S "out"), .str n, d]
+  | .entered ty n d => .arr [.str (ty ++ S "StateEntered"), .str n, .obj [(S "input", d)]]
+  | .exited ty n d => .arr [.str (ty ++ S "StateExited"), .str n, .obj [(S "output", d)]]
+  | .lambdaScheduled i r => .arr [.str (S "LambdaFunctionScheduled"), .null, .obj [(S "input", i), (S "resource", .str r)]]
+  | .lambdaSucceeded o => .arr [.str (S "LambdaFunctionSucceeded"), .null, .obj [(S "output", o)]]
+  | .lambdaFailed e c => .arr [.str (S "LambdaFunctionFailed"), .null, .obj [(S "error", e), (S "cause", c)]]
+  | .fanStarted ty l => .arr [.str (ty ++ S "StateStarted"), .null,
+      (match l with | some n => .obj [(S "length", .num n)] | none => .obj [])]
+  | .iterStarted n i => .arr [.str (S "MapIterationStarted"), .str n, .obj [(S "index", .num i)]]
+  | .iterFailed n i => .arr [.str (S "MapIterationFailed"), .str n, .obj [(S "index", .num i)]]
+  | .fanFailed ty => .arr [.str (ty ++ S "StateFailed"), .null, .obj []]
+  | .execStarted i => .arr [.str (S "ExecutionStarted"), .null, .obj [(S "input", i)]]
+  | .execSucceeded o => .arr [.str (S "ExecutionSucceeded"), .null, .obj [(S "output", o)]]
+  | .execFailed e c => .arr [.str (S "ExecutionFailed"), .null, .obj [(S "error", .str e), (S "cause", optJ c)]]
 
 def outcomeJson (o : Outcome) : Json :=
   .obj [(S "status", .str o.status), (S "output", optJ o.output),
         (S "error", match o.error with | some e => .str e | none => .null),
         (S "cause", optJ o.cause), (S "failState", .bool o.failState),
         (S "trace", .arr (o.trace.map .str)), (S "multiFail", .bool o.multiFail),
-        (S "log", .arr (o.log.map evJson)), (S "requests", .num o.requests), (S "fanFail", .bool o.fanFail)]
+        (S "log", .arr (o.log.filterMap evShort)), (S "requests", .num o.requests), (S "fanFail", .bool o.fanFail),
+        (S "history", .arr (o.history.map evJson)),
+        (S "notifications", .arr (o.notifications.map (fun n => .arr [.str n.1, n.2])))]
 
 mutual
 /-- every payload template and every Choice rule of the definition is inside what the full
